@@ -368,7 +368,7 @@ func (f *chainFam) Apply(st M) M {
 					if len(uf.Proofs) < int(uf.MaxProofs) {
 						p := f.c.Acct([]string{"p1", "p2", "p3", "p4"}[f.rng.Intn(4)])
 						if item, hl, ok := t.proof(0); ok && !uf.ContainsProver(p.S()) {
-							cands = append(cands, &stypes.MsgPostProof{Creator: p.S(), Item: item, HashList: hl, Merkle: t.root, Owner: uf.Owner, Start: uf.Start, ToProve: 0})
+							cands = append(cands, &stypes.MsgPostProof{Creator: f.spelled(p.S()), Item: item, HashList: hl, Merkle: t.root, Owner: uf.Owner, Start: uf.Start, ToProve: 0})
 						}
 					}
 					for _, pk := range uf.Proofs {
